@@ -55,7 +55,10 @@ var (
 		{"203.0.113.128/25", "2001:db8:dead::/48", "10.0.0.0/8", "10.0.0.0/16"},
 		{"203.0.113.7/32", "198.51.100.127/32"},
 	}
-	junkCIDRs = []string{"garbage", "", "10.0.0.0", "10.0.0.0/33", "300.0.0.0/8", "fe80::/129", "10.0.0.0/8/8"}
+	// entries that are not in CIDR form match nothing: among them bare
+	// addresses of the pool and bare addresses that share a /32 (or /8) with them
+	junkCIDRs = []string{"garbage", "", "10.0.0.0", "10.0.0.0/33", "300.0.0.0/8", "fe80::/129", "10.0.0.0/8/8",
+		"203.0.113.7", "198.51.100.9", "10.0.0.5", "2001:db8::10", "2001:db8::1", "::2", "fc00::2", "::ffff:10.0.0.5"}
 )
 
 // withJunk inserts an unparsable entry before, after or between valid ones.
